@@ -97,6 +97,7 @@ impl<T: Clone + Number> Mesh2D<T> {
     /// Return a cross section of the 2D mesh at a specified x node 
     #[inline]
     pub fn cross_section_xnode(&self, nodex: usize ) -> Mesh1D<T, f64> {
+        if nodex >= self.nx { panic!( "Mesh2D error: cross_section_xnode range error." ); }
         let mut section = Mesh1D::<T, f64>::new( self.y_nodes.clone(), self.nvars );
         for nodey in 0..self.ny {
             section.set_nodes_vars( nodey, self.get_nodes_vars( nodex, nodey ) );
@@ -107,6 +108,7 @@ impl<T: Clone + Number> Mesh2D<T> {
     /// Return a cross section of the 2D mesh at a specified y node 
     #[inline]
     pub fn cross_section_ynode(&self, nodey: usize ) -> Mesh1D<T, f64> {
+        if nodey >= self.ny { panic!( "Mesh2D error: cross_section_ynode range error." ); }
         let mut section = Mesh1D::<T, f64>::new( self.x_nodes.clone(), self.nvars );
         for nodex in 0..self.nx {
             section.set_nodes_vars( nodex, self.get_nodes_vars( nodex, nodey ) );
